@@ -16,16 +16,35 @@ Model: `NrfModel/Net/Node.lean` (`nodeWrite` = `_write`, `ackWait` = its wait lo
 * `C13_when_*`   the decision logic, stated outright: one step of `nodeWrite` for every fuel and
                  state (`C13_when_step`), and the meaning of the decision on the tree via C04
                  (`C13_when_meaning`), all 256 types by arithmetic.
-* `C13_once`     along the tree route exactly one node emits — the one before the destination —
-                 and none does on a one-hop route.
+* `C13_once_decision` (was `C13_once`) a fact about the PURE decision function `ackAction` at the
+                 arguments the route's nodes would call `_write` with: along the tree route exactly one
+                 position takes the `emit` decision — the one before the destination — and none does on a
+                 one-hop route.  It is NOT a statement about an execution; the NETWORK_ACK transmissions
+                 of a run are counted by `C13_live_route_air_closed_partial` (closed `runOthers` system,
+                 loss-free, ≥ 2 hops) and otherwise by the correspondence runs of `./check C13` only.
 * `C13_believed*` safety for every fuel, world, arrival script, fault list and behaviour of the other
                  nodes: `True` only if a type-193 frame for this node was read in the wait loop, in
                  a `_net_update()` call begun no later than the deadline; `False` only after the
                  deadline.
 * `C13_live_partial` closed system, loss-free, two hops: see the end of the file.
 * `C13_live_closed_partial` the same with `L3Contracts` discharged (`l3contracts`, `NrfProofs/L3Discharge.lean`).
-* `C13_live` / `C13_live_closed` closed system, loss-free, tree routes of ANY length ≥ 2 (C04: ≤ 8 hops), types
-                 65..191 that the destination queues: `write()` returns `True`; induction over the route in NrfProofs/C13Hops*.lean.
+* `C13_live_route_partial` / `C13_live_route_closed_partial` (were `C13_live` / `C13_live_closed`) closed system, ONE schedule
+                 (`runOthers`), loss-free, tree routes of ANY length ≥ 2 (C04: ≤ 8 hops), types 65..191 that the
+                 destination queues: `write()` returns `True`, delivered once, all RX FIFOs empty afterwards;
+                 induction over the route in NrfProofs/C13Hops*.lean.  The route's radios need not be fresh
+                 (`NotDupFrame`).  Their former third conjunct ("the route positions that take the emit decision
+                 are `[dist-1]`") mentioned neither state and was `C13_once_decision` restated; it was REMOVED
+                 from the run theorems.
+* `C13_live_route_air_closed_partial` the AIR LOG of that run: the new records of `World.air` are exactly `dist` data
+                 transmissions (origin, then each router) followed by `dist - 1` transmissions of the type-193
+                 frame — the first by the last router (its one originator), then one relay per earlier router —,
+                 every record a single acknowledged attempt (NrfProofs/AirContracts.lean, AirDischarge.lean, C13Air*.lean).
+
+Property clauses WITHOUT a theorem (tie / correspondence runs only): "never blocking longer than the transmit
+and route timeouts allow" (no termination/time bound of `_write`); "never cause a NETWORK_ACK" at trace level
+(only: the pure decision is `.none`; and, for the one run of `C13_live_route_air_closed_partial`, the exact air log);
+statements about `RF24Mesh.write()/send()`; schedules other than
+`runOthers`, packet loss, duplicate deliveries to the last router (retransmission after a lost ESB ACK).
 -/
 import NrfProofs.C13Ack
 import NrfProofs.C13Trace
@@ -34,6 +53,8 @@ import NrfProofs.C13Live
 import NrfProofs.C05Example3
 import NrfProofs.L3Discharge
 import NrfProofs.C13HopsExample
+import NrfProofs.C13Air5
+import NrfProofs.AirDischarge
 
 namespace Nrf.Props.C13
 open Nrf Nrf.Net Nrf.Spec Nrf.Proofs Nrf.Props.C04
@@ -53,7 +74,11 @@ example : (⟨{ msgType := .int 65 }, []⟩ : Frame).isAckType = .ok true ∧
 /-! ## when: the decision of `_write` -/
 
 /-- **One step of `_write(write_direct, send_type)`**, for every fuel, every state in which the
-    running node is on the call stack, every integer message type `t` in `frame_buf`:
+    running node is on the call stack, every integer message type `t` in `frame_buf`
+    (an UNFOLDING lemma: `ackCont` of `Spec/NetAck.lean` is a re-bracketing of the three tails of the model's
+    own `nodeWrite` and calls the same model functions, and `ackAction` is extracted from `nodeWrite`; so this
+    says "model = model re-bracketed", not "model meets an independent specification" — the independent
+    content is `C13_when_meaning`, conjuncts 1-2):
     the frame is handed to the hop `_logi_2_phys` names (after a 2 ms pause at the last router of
     an acknowledged type); an exception there ends the call; otherwise, with `result` the verdict
     of that transmission and `s1` the state it left, the call continues with exactly the
@@ -110,7 +135,14 @@ example : let s : NetState := { nodes := [{ frameBuf := ⟨{ msgType := .str [84
     * `TX_PHYSICAL`, `TX_LOGICAL`, `TX_MULTICAST` (send types above `TX_ROUTED`: the "hop" is the given
       address itself): nothing — in particular the `TX_LOGICAL` alternative in the code's wait
       condition can never fire;
-    * types outside 65..191 — NETWORK_ACK (193) itself included: nothing. -/
+    * types outside 65..191 — NETWORK_ACK (193) itself included: nothing.
+
+    Conjuncts 1-2 are the independent content (the decision function against `originRule` / `forwarderRule`,
+    written from the property text).  Conjuncts 3-4 say only that the DECISION is `.none` (conjunct 4 is the
+    outer `if` of `ackAction`): they are not air-log statements, and there is no theorem that the header is
+    rewritten to type 193 only on the `.emit` branch.  "Multicast" here means a send type above `TX_ROUTED`;
+    `write(0o100, t, …)` with the default `TX_NORMAL` to the multicast ADDRESS and an ack type `t` gives
+    `.await` (evaluation) — that call blocks for `route_timeout`. -/
 theorem C13_when_meaning (x d : List Nat) (hx : IsNode x) (hd : IsNode d) (t : Nat) :
     (∀ fr, ackAction (nodeSpec x) t (val d) TX_NORMAL fr = originRule x d t) ∧
     (∀ s, IsNode s → ackAction (nodeSpec x) t (val d) TX_ROUTED (val s) = forwarderRule x s d t) ∧
@@ -130,11 +162,18 @@ example : IsNode [3, 2, 1] ∧ IsNode [4] ∧ originRule [3, 2, 1] [4] 65 = .awa
 /-- the send type a node of the route uses: the origin `TX_NORMAL`, every forwarder `TX_ROUTED` -/
 def roleSendType (i : Nat) : Nat := if i = 0 then TX_NORMAL else TX_ROUTED
 
-/-- Along the tree route from `s` to `d` (node `i` = the position after `i` hops, C04), for a type
-    in 65..191: node `i < dist s d` decides to emit a NETWORK_ACK iff it is the node before `d` and
-    not the origin.  Hence exactly one node emits on a route of two or more hops — the last router —
-    and none on a one-hop route. -/
-theorem C13_once (s d : List Nat) (hs : IsNode s) (hd : IsNode d) (t : Nat) (ht : AckType t) :
+/-- A fact about the PURE DECISION FUNCTION `ackAction`, not about an execution.  Along the tree route from
+    `s` to `d` (node `i` = the position after `i` hops, C04), for a type in 65..191: `ackAction`, evaluated at
+    the arguments node `i < dist s d` would call `_write` with if the frame reached it once (its own
+    constants, the type, `to = d`, `TX_NORMAL` at the origin / `TX_ROUTED` at a forwarder, `from = s`), is
+    `.emit` iff `i` is the position before `d` and not the origin.  Hence exactly one POSITION takes the emit
+    decision on a route of two or more hops — the last router — and none on a one-hop route.
+    NOT claimed: that the nodes of an execution call `_write` with these arguments exactly once each (a last
+    router that gets the frame twice — retransmission after a lost ESB ACK — other schedules, fault lists),
+    nor how many type-193 frames go on the air (for the closed loss-free `runOthers` run that is
+    `C13_live_route_air_closed_partial`); emission is also conditional on the hop's `result = True`.
+    (Renamed from `C13_once`.) -/
+theorem C13_once_decision (s d : List Nat) (hs : IsNode s) (hd : IsNode d) (t : Nat) (ht : AckType t) :
     (∀ i, i < dist s d →
       (ackAction (nodeSpec (hops i s d)) t (val d) (roleSendType i) (val s) = .emit
         ↔ (i + 1 = dist s d ∧ 1 ≤ i))) ∧
@@ -246,8 +285,15 @@ example : Example.sNone.cur ∈ Example.sNone.active ∧
     hop refused the frame (`res = False`, no wait), or it accepted it, listening was restored, and
     `res` is the verdict of the wait loop with deadline `route_timeout·10⁶` ns after that instant —
     so `res = True` ⇒ a NETWORK_ACK frame for the sender was read before the loop ended, in a
-    `_net_update()` call begun no later than the deadline; `res = False` ⇒ the sender's clock is
-    past the deadline. -/
+    `_net_update()` call begun no later than the deadline; `res = False` ⇒ the first hop refused, or the
+    sender's clock is past the deadline.
+
+    Limits of this statement: it is about `_write` with a frame placed in `frame_buf` (not `write()` /
+    `RF24Mesh.write()`), and about NORMAL returns only (`.ok`): that `_write` and the wait loop return at all
+    (fuel, exceptions) is a hypothesis, there is no bound on the first hop in terms of `tx_timeout`, and
+    "within route_timeout" is weakened to "read in a `_net_update()` call that BEGAN by the deadline" (that
+    call's own duration is unbounded here).  The property's clause "never blocking longer than the transmit
+    and route timeouts allow" has no theorem. -/
 theorem C13_believed_write (f wd st t : Nat) (s s' : NetState) (res : Bool) (hs : s.cur ∈ s.active)
     (ht : s.node.frameBuf.header.msgType = .int t) (hty : AckType t)
     (hhop : (logi2phys s.node.a wd st).1 ≠ wd) (hst : st = TX_NORMAL ∨ st = TX_LOGICAL)
@@ -352,21 +398,23 @@ example : let s : NetState := { nodes := [{ a := nodeSpec [], frameBuf := ⟨{ m
 /-- **Liveness over a two-hop route** — closed system with the schedule of `runOthers`, loss-free
     (`faults = []` is part of `NetOk`), under the driver contracts `L3Contracts`.  In a tree network in
     which every node listens on its tree addresses (`NetOk`), nobody has address `0o4444`, all RX FIFOs
-    are empty and no radio has received anything yet, node `a` (tree node `x`) writes a single-frame
+    are empty, node `a` (tree node `x`) writes a single-frame
     message of a user type in 65..127 for `d`, whose route is `x — y — d` with `y` and `d` present
-    (`r`, `jd`), and the destination's queue accepts the frame.  Then:
+    (`r`, `jd`); the packet accepted last by the radio of `y` and of `d` (if any — they need not be fresh) does
+    not carry this frame's bytes, the one accepted last by the origin's radio does not carry the bytes of this
+    frame's NETWORK_ACK (`NotDupFrame`, NrfProofs/C05Closed.lean; `ackOf`); and the destination's queue accepts the frame.  Then:
     the first hop accepts the frame; inside the first `read()` of the origin's wait loop the router
     `y` runs — reads the frame, pauses 2 ms, delivers it to `d`, turns it into a NETWORK_ACK for `x`
     and sends it (the destination taking its frame at the scheduling point of that transmission) —;
     the origin reads the NETWORK_ACK, `_net_update()` returns 193, and **`write()` returns `True`**;
     moreover the destination's queue has gained exactly that message and no other queue changed.
 
-    (Routes of any length: `C13_live` / `C13_live_closed` at the end of this file.)
-    Missing here for the general `C13_live` (hence `_partial`): routes of 3..8 hops (the induction over the
+    (Routes of any length: `C13_live_route_partial` / `C13_live_route_closed_partial` at the end of this file.)
+    Missing here for the general `C13_live_route_partial` (hence `_partial`): routes of 3..8 hops (the induction over the
     route needs, per router, the nested run of its successor *and* the later relay of the returning
     NETWORK_ACK found in its own RX FIFO; the two-hop case has neither a relay nor a second level of
-    nesting); schedules other than `runOthers`; system types 128..191; radios that received frames
-    before (`lastRx`, the PID sequence). -/
+    nesting); schedules other than `runOthers`; system types 128..191.  (This two-hop theorem does not
+    export the quiescence conjunct; the general one below does.) -/
 theorem C13_live_partial (hc : L3Contracts) (cfg : AddrCfg) (hcfg : CfgOk cfg) (L : LinkCfg)
     (tree : Nat → List Nat) (s : NetState) (a r jd : Nat) (x y d : List Nat) (ty : Int) (msg : Bytes)
     (hok : NetOk cfg L tree s) (hcur : s.cur = a) (hact : s.active = [a])
@@ -375,7 +423,9 @@ theorem C13_live_partial (hc : L3Contracts) (cfg : AddrCfg) (hcfg : CfgOk cfg) (
     (hta : tree a = x) (htr : tree r = y) (htd : tree jd = d)
     (hy1 : nextHopSpec x d = y) (hy2 : nextHopSpec y d = d) (hxd : x ≠ d) (hyd : y ≠ d)
     (hquiet : ∀ i, i < s.nodes.length → (s.radioAt i).rxFifo = [])
-    (hlast : ∀ i, i < s.nodes.length → (s.radioAt i).lastRx = none)
+    (hlast_r : NotDupFrame (s.radioAt r) (wireCopy (callerFrame x d s.nextId ty msg)))
+    (hlast_d : NotDupFrame (s.radioAt jd) (wireCopy (callerFrame x d s.nextId ty msg)))
+    (hlast_a : NotDupFrame (s.radioAt a) (ackOf (wireCopy (callerFrame x d s.nextId ty msg))))
     (hty : 65 ≤ ty ∧ ty ≤ 127) (hlen : msg.length ≤ MAX_FRAG_SIZE)
     (hmax : msg.length ≤ (s.nodeAt a).maxMessageLength)
     (hacc : Accepts (s.nodeAt jd).queue (wireCopy (callerFrame x d s.nextId ty msg))) :
@@ -386,7 +436,7 @@ theorem C13_live_partial (hc : L3Contracts) (cfg : AddrCfg) (hcfg : CfgOk cfg) (
   have hat : AckType ty.toNat := by unfold AckType; omega
   have hxy : x ≠ y := by rw [← hy1]; exact fun e => nextHop_ne_self hxd e.symm
   refine ⟨hat, ?_, ?_, live_two_hops hc cfg hcfg L tree s a r jd x y d ty msg hok hcur hact ha hr hjd hsize hndef
-    hta htr htd hy1 hy2 hxd hyd hquiet hlast hty hlen hmax hacc⟩
+    hta htr htd hy1 hy2 hxd hyd hquiet hlast_r hlast_d hlast_a hty hlen hmax hacc⟩
   · unfold originRule
     rw [if_pos ⟨hat, by rw [hy1]; exact hyd⟩]
   · unfold forwarderRule
@@ -418,11 +468,7 @@ example (hc : L3Contracts) : ∃ s1,
       have hi' : i < 3 := hi
       have : i = 0 ∨ i = 1 ∨ i = 2 := by omega
       rcases this with rfl | rfl | rfl <;> decide)
-    (by
-      intro i hi
-      have hi' : i < 3 := hi
-      have : i = 0 ∨ i = 1 ∨ i = 2 := by omega
-      rcases this with rfl | rfl | rfl <;> decide)
+    (NotDupFrame.of_none (by decide)) (NotDupFrame.of_none (by decide)) (NotDupFrame.of_none (by decide))
     (by decide) (by decide) (by decide)
     ⟨by decide, by intro g hg; cases hg⟩).2.2.2
 
@@ -430,7 +476,7 @@ example (hc : L3Contracts) : ∃ s1,
 
 /-- **`C13_live_partial` unconditionally**: `l3contracts : L3Contracts` (NrfProofs/L3Discharge.lean) proves the
     six driver contracts from the driver model over the chip and the air; what is missing for the general
-    `C13_live` is listed at `C13_live_partial` -/
+    `C13_live_route_partial` is listed at `C13_live_partial` -/
 theorem C13_live_closed_partial (cfg : AddrCfg) (hcfg : CfgOk cfg) (L : LinkCfg)
     (tree : Nat → List Nat) (s : NetState) (a r jd : Nat) (x y d : List Nat) (ty : Int) (msg : Bytes)
     (hok : NetOk cfg L tree s) (hcur : s.cur = a) (hact : s.active = [a])
@@ -439,7 +485,9 @@ theorem C13_live_closed_partial (cfg : AddrCfg) (hcfg : CfgOk cfg) (L : LinkCfg)
     (hta : tree a = x) (htr : tree r = y) (htd : tree jd = d)
     (hy1 : nextHopSpec x d = y) (hy2 : nextHopSpec y d = d) (hxd : x ≠ d) (hyd : y ≠ d)
     (hquiet : ∀ i, i < s.nodes.length → (s.radioAt i).rxFifo = [])
-    (hlast : ∀ i, i < s.nodes.length → (s.radioAt i).lastRx = none)
+    (hlast_r : NotDupFrame (s.radioAt r) (wireCopy (callerFrame x d s.nextId ty msg)))
+    (hlast_d : NotDupFrame (s.radioAt jd) (wireCopy (callerFrame x d s.nextId ty msg)))
+    (hlast_a : NotDupFrame (s.radioAt a) (ackOf (wireCopy (callerFrame x d s.nextId ty msg))))
     (hty : 65 ≤ ty ∧ ty ≤ 127) (hlen : msg.length ≤ MAX_FRAG_SIZE)
     (hmax : msg.length ≤ (s.nodeAt a).maxMessageLength)
     (hacc : Accepts (s.nodeAt jd).queue (wireCopy (callerFrame x d s.nextId ty msg))) :
@@ -448,7 +496,7 @@ theorem C13_live_closed_partial (cfg : AddrCfg) (hcfg : CfgOk cfg) (L : LinkCfg)
         (.ok (true, callerFrame x d s.nextId ty msg), s1) ∧
       DeliveredOnce s.nodes s1.nodes jd (val x) ty.toNat msg :=
   C13_live_partial l3contracts cfg hcfg L tree s a r jd x y d ty msg hok hcur hact ha hr hjd hsize hndef hta
-    htr htd hy1 hy2 hxd hyd hquiet hlast hty hlen hmax hacc
+    htr htd hy1 hy2 hxd hyd hquiet hlast_r hlast_d hlast_a hty hlen hmax hacc
 
 /-- non-vacuity (the chain `0o0 — 0o1 — 0o11` of `NrfProofs/C05Example3.lean`), without any open hypothesis -/
 example : ∃ s1,
@@ -473,11 +521,7 @@ example : ∃ s1,
       have hi' : i < 3 := hi
       have : i = 0 ∨ i = 1 ∨ i = 2 := by omega
       rcases this with rfl | rfl | rfl <;> decide)
-    (by
-      intro i hi
-      have hi' : i < 3 := hi
-      have : i = 0 ∨ i = 1 ∨ i = 2 := by omega
-      rcases this with rfl | rfl | rfl <;> decide)
+    (NotDupFrame.of_none (by decide)) (NotDupFrame.of_none (by decide)) (NotDupFrame.of_none (by decide))
     (by decide) (by decide) (by decide)
     ⟨by decide, by intro g hg; cases hg⟩).2.2.2
 
@@ -502,11 +546,15 @@ packet" → "the node before me holds exactly the acknowledgement; the destinati
     does not return system messages to the caller of `update()` (`ret_sys_msg = False`, the default of
     `RF24Network`; the six types 128, 130, 131, 148, 149, 150 are left out: consumed, rewritten, fragment types,
     or — 131 — ending the `_net_update()` call) — for `d`, `dist (tree a) d ≥ 2` hops away (C04: at most 8); every node of the tree
-    route — origin, routers, destination — is present and has not received anything yet (`lastRx =
-    none`); the destination's queue accepts the frame.  Then:
-    * the type is acknowledged, the origin's rule is to wait, and along the route **exactly the last
-      router decides to emit** a NETWORK_ACK (the positions `i < dist` whose `_write` takes the `emit`
-      decision are `[dist - 1]`);
+    route — origin, routers, destination — is present; the packet accepted last by the radio of each router
+    and of the destination (if any: the nodes need NOT be fresh) does not carry this frame's bytes (`hroute`),
+    and the one accepted last by the origin's radio does not carry the bytes of this frame's NETWORK_ACK
+    (`horig`; `NotDupFrame`, NrfProofs/C05Closed.lean: the chip's duplicate filter compares PID, address and
+    data — different data suffices; `ackOf fr` = `fr` with type 193 and `to := from`); the destination's queue
+    accepts the frame.  Then:
+    * the type is acknowledged and the origin's rule is to wait (two facts about the pure rules; the former
+      third conjunct "the positions that take the emit decision are `[dist - 1]`" was a restatement of
+      `C13_once_decision`, said nothing about the run, and has been removed from this theorem);
     * **`write()` returns `True`** — the first hop accepts the frame; inside the first `read()` of the
       origin's wait loop the whole route runs, nested: each router forwards, its successor runs inside
       its next `read()`, the last router delivers to `d`, emits the NETWORK_ACK (the destination taking
@@ -514,18 +562,26 @@ packet" → "the node before me holds exactly the acknowledgement; the destinati
       by each suspended router as its `read()` resumes; the origin reads it in that same first
       `_net_update()`;
     * the destination's queue has gained **exactly that message**, and the queue of every other node —
-      routers and origin included — is unchanged (`DeliveredOnce`).
+      routers and origin included — is unchanged (`DeliveredOnce`);
+    * when `write()` has returned **every RX FIFO of the network is empty**: the NETWORK_ACK was consumed by
+      the origin, no second copy of the frame or of the acknowledgement is waiting anywhere.
 
-    Still open (not needed for the statement above): schedules other than `runOthers`; route nodes whose
-    radio received frames before (`lastRx`: the proof only needs that the duplicate filter cannot hit,
-    i.e. the PID sequence of the senders). -/
-theorem C13_live (hc : L3Contracts) (cfg : AddrCfg) (hcfg : CfgOk cfg) (L : LinkCfg)
+    What the air log of this run looks like is stated by `C13_live_route_air_closed_partial` at the end of
+    this file (on the chain `0o0 — 0o1 — 0o11 — 0o111` the new records of
+    `World.air` are data by nodes 3, 2, 1, then the type-193 frame by node 1 (the last router, its originator)
+    and by node 2 (relay), every record a single acknowledged attempt).
+
+    `_partial`: ONE schedule (`runOthers`), loss-free; a last router that receives the frame twice
+    (retransmission after a lost ESB ACK) and every other schedule are not covered. -/
+theorem C13_live_route_partial (hc : L3Contracts) (cfg : AddrCfg) (hcfg : CfgOk cfg) (L : LinkCfg)
     (tree : Nat → List Nat) (s : NetState) (a : Nat) (d : List Nat) (ty : Int) (msg : Bytes)
     (hok : NetOk cfg L tree s) (hcur : s.cur = a) (hact : s.active = [a]) (ha : a < s.nodes.length)
     (hsize : s.nodes.length ≤ 20000) (hndef : ∀ i, val (tree i) ≠ NETWORK_DEFAULT_ADDR)
     (h2 : 2 ≤ dist (tree a) d)
-    (hroute : ∀ k, k ≤ dist (tree a) d →
-      ∃ j, j < s.nodes.length ∧ tree j = hops k (tree a) d ∧ (s.radioAt j).lastRx = none)
+    (hroute : ∀ k, 1 ≤ k → k ≤ dist (tree a) d →
+      ∃ j, j < s.nodes.length ∧ tree j = hops k (tree a) d ∧
+        NotDupFrame (s.radioAt j) (wireCopy (callerFrame (tree a) d s.nextId ty msg)))
+    (horig : NotDupFrame (s.radioAt a) (ackOf (wireCopy (callerFrame (tree a) d s.nextId ty msg))))
     (hquiet : ∀ i, i < s.nodes.length → (s.radioAt i).rxFifo = [])
     (hty : 65 ≤ ty ∧ ty ≤ 191)
     (hsys : ty ≤ 127 ∨ ((∀ j, j < s.nodes.length → tree j = d → (s.nodeAt j).retSysMsg = false) ∧
@@ -535,16 +591,14 @@ theorem C13_live (hc : L3Contracts) (cfg : AddrCfg) (hcfg : CfgOk cfg) (L : Link
     (hacc : ∀ j, j < s.nodes.length → tree j = d →
       Accepts (s.nodeAt j).queue (wireCopy (callerFrame (tree a) d s.nextId ty msg))) :
     AckType ty.toNat ∧ originRule (tree a) d ty.toNat = .await ∧
-    (List.range (dist (tree a) d)).filter (fun i =>
-        decide (ackAction (nodeSpec (hops i (tree a) d)) ty.toNat (val d) (roleSendType i) (val (tree a)) = .emit))
-      = [dist (tree a) d - 1] ∧
     ∃ s1 jd, jd < s.nodes.length ∧ tree jd = d ∧
       nexec (apiNetWrite (val d) ty msg AUTO_ROUTING) s =
         (.ok (true, callerFrame (tree a) d s.nextId ty msg), s1) ∧
-      DeliveredOnce s.nodes s1.nodes jd (val (tree a)) ty.toNat msg := by
+      DeliveredOnce s.nodes s1.nodes jd (val (tree a)) ty.toNat msg ∧
+      ∀ i, i < s.nodes.length → (s1.radioAt i).rxFifo = [] := by
   have hat : AckType ty.toNat := by unfold AckType; omega
   have hxn : IsNode (tree a) := (hok.node a ha).1
-  obtain ⟨jd, hjd, htjd, _⟩ := hroute (dist (tree a) d) (Nat.le_refl _)
+  obtain ⟨jd, hjd, htjd, _⟩ := hroute (dist (tree a) d) (by omega) (Nat.le_refl _)
   rw [hops_dist] at htjd
   have hdn : IsNode d := by have := (hok.node jd hjd).1; rw [htjd] at this; exact this
   have hxd : tree a ≠ d := by
@@ -553,12 +607,9 @@ theorem C13_live (hc : L3Contracts) (cfg : AddrCfg) (hcfg : CfgOk cfg) (L : Link
     intro e
     have := dist_nextHop hxd
     rw [e, dist_self] at this; omega
-  refine ⟨hat, ?_, ?_, ?_⟩
+  refine ⟨hat, ?_, ?_⟩
   · unfold originRule
     rw [if_pos ⟨hat, hy1d⟩]
-  · have := (C13_once (tree a) d hxn hdn ty.toNat hat).2
-    rw [if_pos h2] at this
-    exact this
   · have hsys' : ∀ j, j < s.nodes.length → tree j = d → Hops.SysOk ty.toNat (s.nodeAt j).retSysMsg := by
       intro j hj htj
       unfold Hops.SysOk MAX_USR_DEF_MSG_TYPE
@@ -567,7 +618,7 @@ theorem C13_live (hc : L3Contracts) (cfg : AddrCfg) (hcfg : CfgOk cfg) (L : Link
         omega
       · refine ⟨Or.inr (h1 j hj htj), ?_⟩
         omega
-    exact Hops.live_route hc cfg hcfg L tree s a d ty msg hok hcur hact ha hsize hndef h2 hroute hquiet hty hsys' hlen
+    exact Hops.live_route hc cfg hcfg L tree s a d ty msg hok hcur hact ha hsize hndef h2 hroute horig hquiet hty hsys' hlen
       hmax hacc
 
 /-- non-vacuity: every hypothesis other than the driver contracts holds for the concrete chain
@@ -578,19 +629,19 @@ example (hc : L3Contracts) : ∃ s1,
     nexec (apiNetWrite (val []) 100 [9, 8, 7] AUTO_ROUTING) Example.Hops.four =
       (.ok (true, callerFrame [1, 1, 1] [] 8 100 [9, 8, 7]), s1) ∧
     DeliveredOnce Example.Hops.four.nodes s1.nodes 0 (val [1, 1, 1]) 100 [9, 8, 7] := by
-  obtain ⟨_, _, _, s1, jd, hjd, htjd, hw, hdel⟩ :=
-    C13_live hc {} (by decide) Example.L Example.Hops.tree4 Example.Hops.four 3 [] 100 [9, 8, 7]
+  obtain ⟨_, _, s1, jd, hjd, htjd, hw, hdel, _⟩ :=
+    C13_live_route_partial hc {} (by decide) Example.L Example.Hops.tree4 Example.Hops.four 3 [] 100 [9, 8, 7]
       Example.Hops.four_ok rfl rfl (by decide) (by decide) Example.Hops.four_ndef (by decide)
       (by
-        intro k hk
+        intro k hk1 hk
         have hd : dist (Example.Hops.tree4 3) [] = 3 := by decide
         rw [hd] at hk
-        have : k = 0 ∨ k = 1 ∨ k = 2 ∨ k = 3 := by omega
-        rcases this with rfl | rfl | rfl | rfl
-        · exact ⟨3, by decide, by decide, by decide⟩
-        · exact ⟨2, by decide, by decide, by decide⟩
-        · exact ⟨1, by decide, by decide, by decide⟩
-        · exact ⟨0, by decide, by decide, by decide⟩)
+        have : k = 1 ∨ k = 2 ∨ k = 3 := by omega
+        rcases this with rfl | rfl | rfl
+        · exact ⟨2, by decide, by decide, NotDupFrame.of_none (by decide)⟩
+        · exact ⟨1, by decide, by decide, NotDupFrame.of_none (by decide)⟩
+        · exact ⟨0, by decide, by decide, NotDupFrame.of_none (by decide)⟩)
+      (NotDupFrame.of_none (by decide))
       (by
         intro i hi
         rcases Example.Hops.four_lt i hi with rfl | rfl | rfl | rfl <;> decide)
@@ -611,20 +662,24 @@ example (hc : L3Contracts) : ∃ s1,
   subst this
   exact ⟨s1, hw, hdel⟩
 
-/-- **`C13_live` unconditionally**: `l3contracts : L3Contracts` (NrfProofs/L3Discharge.lean) proves the six
+/-- **`C13_live_route_partial` unconditionally**: `l3contracts : L3Contracts` (NrfProofs/L3Discharge.lean) proves the six
     driver contracts from the driver model over the chip and the air.  Closed `runOthers` system,
-    loss-free, `NetOk` network with all RX FIFOs empty and the route's nodes present and fresh, a type in
+    loss-free, `NetOk` network with all RX FIFOs empty and the route's nodes present (not necessarily fresh:
+    `NotDupFrame`), a type in
     65..191 that the destination queues (all user types; system types but 128, 130, 131, 148..150 at a
     destination with `ret_sys_msg = False`), ≤ 24 bytes, tree route of `k ≥ 2` hops from `tree a` to `d`: `write()` at `a` returns `True`;
-    exactly the last router decides to emit the NETWORK_ACK; the destination's queue gained exactly the
-    message; every router's and the origin's queue is unchanged. -/
-theorem C13_live_closed (cfg : AddrCfg) (hcfg : CfgOk cfg) (L : LinkCfg)
+    the destination's queue gained exactly the message; every router's and the origin's queue is unchanged;
+    every RX FIFO is empty afterwards.  (No conjunct about who emits: see `C13_once_decision` for the pure
+    decision and `C13_live_route_air_closed_partial` for the run.) -/
+theorem C13_live_route_closed_partial (cfg : AddrCfg) (hcfg : CfgOk cfg) (L : LinkCfg)
     (tree : Nat → List Nat) (s : NetState) (a : Nat) (d : List Nat) (ty : Int) (msg : Bytes)
     (hok : NetOk cfg L tree s) (hcur : s.cur = a) (hact : s.active = [a]) (ha : a < s.nodes.length)
     (hsize : s.nodes.length ≤ 20000) (hndef : ∀ i, val (tree i) ≠ NETWORK_DEFAULT_ADDR)
     (h2 : 2 ≤ dist (tree a) d)
-    (hroute : ∀ k, k ≤ dist (tree a) d →
-      ∃ j, j < s.nodes.length ∧ tree j = hops k (tree a) d ∧ (s.radioAt j).lastRx = none)
+    (hroute : ∀ k, 1 ≤ k → k ≤ dist (tree a) d →
+      ∃ j, j < s.nodes.length ∧ tree j = hops k (tree a) d ∧
+        NotDupFrame (s.radioAt j) (wireCopy (callerFrame (tree a) d s.nextId ty msg)))
+    (horig : NotDupFrame (s.radioAt a) (ackOf (wireCopy (callerFrame (tree a) d s.nextId ty msg))))
     (hquiet : ∀ i, i < s.nodes.length → (s.radioAt i).rxFifo = [])
     (hty : 65 ≤ ty ∧ ty ≤ 191)
     (hsys : ty ≤ 127 ∨ ((∀ j, j < s.nodes.length → tree j = d → (s.nodeAt j).retSysMsg = false) ∧
@@ -634,33 +689,32 @@ theorem C13_live_closed (cfg : AddrCfg) (hcfg : CfgOk cfg) (L : LinkCfg)
     (hacc : ∀ j, j < s.nodes.length → tree j = d →
       Accepts (s.nodeAt j).queue (wireCopy (callerFrame (tree a) d s.nextId ty msg))) :
     AckType ty.toNat ∧ originRule (tree a) d ty.toNat = .await ∧
-    (List.range (dist (tree a) d)).filter (fun i =>
-        decide (ackAction (nodeSpec (hops i (tree a) d)) ty.toNat (val d) (roleSendType i) (val (tree a)) = .emit))
-      = [dist (tree a) d - 1] ∧
     ∃ s1 jd, jd < s.nodes.length ∧ tree jd = d ∧
       nexec (apiNetWrite (val d) ty msg AUTO_ROUTING) s =
         (.ok (true, callerFrame (tree a) d s.nextId ty msg), s1) ∧
-      DeliveredOnce s.nodes s1.nodes jd (val (tree a)) ty.toNat msg :=
-  C13_live l3contracts cfg hcfg L tree s a d ty msg hok hcur hact ha hsize hndef h2 hroute hquiet hty hsys hlen hmax
+      DeliveredOnce s.nodes s1.nodes jd (val (tree a)) ty.toNat msg ∧
+      ∀ i, i < s.nodes.length → (s1.radioAt i).rxFifo = [] :=
+  C13_live_route_partial l3contracts cfg hcfg L tree s a d ty msg hok hcur hact ha hsize hndef h2 hroute horig hquiet hty hsys hlen hmax
     hacc
 
 /-- non-vacuity (the chain `0o0 — 0o1 — 0o11 — 0o111`, three hops), without any open hypothesis -/
 example : ∃ s1 jd, jd < 4 ∧ Example.Hops.tree4 jd = [] ∧
     nexec (apiNetWrite (val []) 100 [9, 8, 7] AUTO_ROUTING) Example.Hops.four =
       (.ok (true, callerFrame [1, 1, 1] [] 8 100 [9, 8, 7]), s1) ∧
-    DeliveredOnce Example.Hops.four.nodes s1.nodes jd (val [1, 1, 1]) 100 [9, 8, 7] :=
-  (C13_live_closed {} (by decide) Example.L Example.Hops.tree4 Example.Hops.four 3 [] 100 [9, 8, 7]
+    DeliveredOnce Example.Hops.four.nodes s1.nodes jd (val [1, 1, 1]) 100 [9, 8, 7] ∧
+    ∀ i, i < 4 → (s1.radioAt i).rxFifo = [] :=
+  (C13_live_route_closed_partial {} (by decide) Example.L Example.Hops.tree4 Example.Hops.four 3 [] 100 [9, 8, 7]
       Example.Hops.four_ok rfl rfl (by decide) (by decide) Example.Hops.four_ndef (by decide)
       (by
-        intro k hk
+        intro k hk1 hk
         have hd : dist (Example.Hops.tree4 3) [] = 3 := by decide
         rw [hd] at hk
-        have : k = 0 ∨ k = 1 ∨ k = 2 ∨ k = 3 := by omega
-        rcases this with rfl | rfl | rfl | rfl
-        · exact ⟨3, by decide, by decide, by decide⟩
-        · exact ⟨2, by decide, by decide, by decide⟩
-        · exact ⟨1, by decide, by decide, by decide⟩
-        · exact ⟨0, by decide, by decide, by decide⟩)
+        have : k = 1 ∨ k = 2 ∨ k = 3 := by omega
+        rcases this with rfl | rfl | rfl
+        · exact ⟨2, by decide, by decide, NotDupFrame.of_none (by decide)⟩
+        · exact ⟨1, by decide, by decide, NotDupFrame.of_none (by decide)⟩
+        · exact ⟨0, by decide, by decide, NotDupFrame.of_none (by decide)⟩)
+      (NotDupFrame.of_none (by decide))
       (by
         intro i hi
         rcases Example.Hops.four_lt i hi with rfl | rfl | rfl | rfl <;> decide)
@@ -671,26 +725,27 @@ example : ∃ s1 jd, jd < 4 ∧ Example.Hops.tree4 jd = [] ∧
         · exact ⟨by decide, by intro g hg; cases hg⟩
         · exact absurd htj (by decide)
         · exact absurd htj (by decide)
-        · exact absurd htj (by decide))).2.2.2
+        · exact absurd htj (by decide))).2.2
 
 /-- non-vacuity for a system type: the same chain, type 160 (the nodes are `RF24Network` objects,
     `ret_sys_msg = False`) -/
 example : ∃ s1 jd, jd < 4 ∧ Example.Hops.tree4 jd = [] ∧
     nexec (apiNetWrite (val []) 160 [9, 8, 7] AUTO_ROUTING) Example.Hops.four =
       (.ok (true, callerFrame [1, 1, 1] [] 8 160 [9, 8, 7]), s1) ∧
-    DeliveredOnce Example.Hops.four.nodes s1.nodes jd (val [1, 1, 1]) 160 [9, 8, 7] :=
-  (C13_live_closed {} (by decide) Example.L Example.Hops.tree4 Example.Hops.four 3 [] 160 [9, 8, 7]
+    DeliveredOnce Example.Hops.four.nodes s1.nodes jd (val [1, 1, 1]) 160 [9, 8, 7] ∧
+    ∀ i, i < 4 → (s1.radioAt i).rxFifo = [] :=
+  (C13_live_route_closed_partial {} (by decide) Example.L Example.Hops.tree4 Example.Hops.four 3 [] 160 [9, 8, 7]
       Example.Hops.four_ok rfl rfl (by decide) (by decide) Example.Hops.four_ndef (by decide)
       (by
-        intro k hk
+        intro k hk1 hk
         have hd : dist (Example.Hops.tree4 3) [] = 3 := by decide
         rw [hd] at hk
-        have : k = 0 ∨ k = 1 ∨ k = 2 ∨ k = 3 := by omega
-        rcases this with rfl | rfl | rfl | rfl
-        · exact ⟨3, by decide, by decide, by decide⟩
-        · exact ⟨2, by decide, by decide, by decide⟩
-        · exact ⟨1, by decide, by decide, by decide⟩
-        · exact ⟨0, by decide, by decide, by decide⟩)
+        have : k = 1 ∨ k = 2 ∨ k = 3 := by omega
+        rcases this with rfl | rfl | rfl
+        · exact ⟨2, by decide, by decide, NotDupFrame.of_none (by decide)⟩
+        · exact ⟨1, by decide, by decide, NotDupFrame.of_none (by decide)⟩
+        · exact ⟨0, by decide, by decide, NotDupFrame.of_none (by decide)⟩)
+      (NotDupFrame.of_none (by decide))
       (by
         intro i hi
         rcases Example.Hops.four_lt i hi with rfl | rfl | rfl | rfl <;> decide)
@@ -705,6 +760,116 @@ example : ∃ s1 jd, jd < 4 ∧ Example.Hops.tree4 jd = [] ∧
         · exact ⟨by decide, by intro g hg; cases hg⟩
         · exact absurd htj (by decide)
         · exact absurd htj (by decide)
-        · exact absurd htj (by decide))).2.2.2
+        · exact absurd htj (by decide))).2.2
+
+/-! ## live: what the run puts on the air
+
+The run theorems above say nothing about `World.air`, the log of transmit cycles.  This one does.  It rests on
+`AirContracts` (NrfProofs/AirContracts.lean: the air-log clause of each of the six RF24 calls, PROVED from the
+driver / chip / air model as `airContracts`, NrfProofs/AirDischarge.lean) and on the route induction repeated with
+the air log (NrfProofs/C13Air1–5.lean, `Air.live_route_air`). -/
+
+/-- **The air log of the acknowledged journey** — closed `runOthers` system, loss-free, both contract sets
+    proved (`l3contracts`, `airContracts`); hypotheses exactly those of `C13_live_route_closed_partial`.
+    `write()` returns `True`, and the records `new` that `s1.w.air` has and `s.w.air` did not are EXACTLY, in
+    this order (`Forall2 (SentBy tree s) new plan`: record by record; `SentBy … r (pos, data)`: `r` was sent by
+    the radio of the node object at tree position `pos`, carries the bytes `data`, took a single attempt and
+    was acknowledged):
+    * the data frame `pk` (the packed wire copy of the caller's frame) by the origin `tree a`, then by each
+      router `hops 1`, …, `hops (dist - 1)` — one transmission per hop, `dist` in all;
+    * then the NETWORK_ACK `pkA` (= the same frame with type 193 and `to := from`, packed; `pk ≠ pkA`):
+      first by the LAST router `hops (dist - 1)` — its originator —, then relayed by `hops (dist - 2)`, …,
+      `hops 1`, each exactly once — `dist - 1` transmissions in all, none by the origin or the destination.
+    So `new` has `2·dist - 1` records; nothing else went on the air: in this run **exactly one node
+    originates a type-193 frame — the node that delivered the frame to its destination — and it does so
+    once**.  (`ackPlan` is the nested form of that list, NrfProofs/C13AirPlan.lean; the two `filter` conjuncts
+    spell out who sent `pkA` resp. `pk`, in order.)
+
+    `_partial`: ONE schedule (`runOthers`), loss-free, ≥ 2 hops; packet loss / retransmissions / other
+    schedules: correspondence runs of `./check C13` (judge on the real air log) only. -/
+theorem C13_live_route_air_closed_partial (cfg : AddrCfg) (hcfg : CfgOk cfg) (L : LinkCfg)
+    (tree : Nat → List Nat) (s : NetState) (a : Nat) (d : List Nat) (ty : Int) (msg : Bytes)
+    (hok : NetOk cfg L tree s) (hcur : s.cur = a) (hact : s.active = [a]) (ha : a < s.nodes.length)
+    (hsize : s.nodes.length ≤ 20000) (hndef : ∀ i, val (tree i) ≠ NETWORK_DEFAULT_ADDR)
+    (h2 : 2 ≤ dist (tree a) d)
+    (hroute : ∀ k, 1 ≤ k → k ≤ dist (tree a) d →
+      ∃ j, j < s.nodes.length ∧ tree j = hops k (tree a) d ∧
+        NotDupFrame (s.radioAt j) (wireCopy (callerFrame (tree a) d s.nextId ty msg)))
+    (horig : NotDupFrame (s.radioAt a) (ackOf (wireCopy (callerFrame (tree a) d s.nextId ty msg))))
+    (hquiet : ∀ i, i < s.nodes.length → (s.radioAt i).rxFifo = [])
+    (hty : 65 ≤ ty ∧ ty ≤ 191)
+    (hsys : ty ≤ 127 ∨ ((∀ j, j < s.nodes.length → tree j = d → (s.nodeAt j).retSysMsg = false) ∧
+      ty ≠ 128 ∧ ty ≠ 130 ∧ ty ≠ 131 ∧ ty ≠ 148 ∧ ty ≠ 149 ∧ ty ≠ 150))
+    (hlen : msg.length ≤ MAX_FRAG_SIZE)
+    (hmax : msg.length ≤ (s.nodeAt a).maxMessageLength)
+    (hacc : ∀ j, j < s.nodes.length → tree j = d →
+      Accepts (s.nodeAt j).queue (wireCopy (callerFrame (tree a) d s.nextId ty msg))) :
+    ∃ s1 pk pkA new,
+      nexec (apiNetWrite (val d) ty msg AUTO_ROUTING) s =
+        (.ok (true, callerFrame (tree a) d s.nextId ty msg), s1) ∧
+      (wireCopy (callerFrame (tree a) d s.nextId ty msg)).pack = .ok pk ∧
+      (ackOf (wireCopy (callerFrame (tree a) d s.nextId ty msg))).pack = .ok pkA ∧ pk ≠ pkA ∧
+      s1.w.air = s.w.air ++ new ∧
+      Forall2 (SentBy tree s) new ((tree a, pk) :: ackPlan (tree a) d pk pkA 1 (dist (tree a) d - 1)) ∧
+      new.length = 2 * dist (tree a) d - 1 ∧
+      Forall2 (SentBy tree s) (new.filter (fun r => decide (r.pkt.data = pkA)))
+        (((List.range (dist (tree a) d - 1)).map (fun k => (hops (1 + k) (tree a) d, pkA))).reverse) ∧
+      Forall2 (SentBy tree s) (new.filter (fun r => decide (r.pkt.data = pk)))
+        ((tree a, pk) :: (List.range (dist (tree a) d - 1)).map (fun k => (hops (1 + k) (tree a) d, pk))) := by
+  have hsys' : ∀ j, j < s.nodes.length → tree j = d → Hops.SysOk ty.toNat (s.nodeAt j).retSysMsg := by
+    intro j hj htj
+    unfold Hops.SysOk MAX_USR_DEF_MSG_TYPE
+    rcases hsys with h | ⟨h1, h3⟩
+    · refine ⟨Or.inl (by omega), ?_⟩
+      omega
+    · refine ⟨Or.inr (h1 j hj htj), ?_⟩
+      omega
+  obtain ⟨s1, jd, pk, pkA, new, _, _, hw, hpk, hpkA, hne, hair, hplan⟩ :=
+    Air.live_route_air l3contracts airContracts cfg hcfg L tree s a d ty msg hok hcur hact ha hsize hndef h2 hroute
+      horig hquiet hty hsys' hlen hmax hacc
+  refine ⟨s1, pk, pkA, new, hw, hpk, hpkA, hne, hair, hplan, ?_, ?_, ?_⟩
+  · rw [hplan.length, List.length_cons, ackPlan_length]; omega
+  · have := hplan.filter (P := fun r => decide (r.pkt.data = pkA)) (Q := fun p => decide (p.2 = pkA))
+      (fun r p ⟨_, _, _, _, h, _⟩ => by simp only [h])
+    rw [List.filter_cons, if_neg (by simpa using hne), ackPlan_acks _ _ _ _ hne] at this
+    exact this
+  · have := hplan.filter (P := fun r => decide (r.pkt.data = pk)) (Q := fun p => decide (p.2 = pk))
+      (fun r p ⟨_, _, _, _, h, _⟩ => by simp only [h])
+    rw [List.filter_cons, if_pos (by simp), ackPlan_data _ _ _ _ hne] at this
+    exact this
+
+/-- non-vacuity: the chain `0o0 — 0o1 — 0o11 — 0o111` (three hops): five new records (running the model:
+    data by nodes 3, 2, 1, then the type-193 frame by node 1 and by node 2) -/
+example : ∃ s1 new,
+    nexec (apiNetWrite (val []) 100 [9, 8, 7] AUTO_ROUTING) Example.Hops.four =
+      (.ok (true, callerFrame [1, 1, 1] [] 8 100 [9, 8, 7]), s1) ∧
+    s1.w.air = Example.Hops.four.w.air ++ new ∧ new.length = 5 := by
+  obtain ⟨s1, pk, pkA, new, hw, _, _, _, hair, _, hlen, _, _⟩ :=
+    C13_live_route_air_closed_partial {} (by decide) Example.L Example.Hops.tree4 Example.Hops.four 3 [] 100 [9, 8, 7]
+      Example.Hops.four_ok rfl rfl (by decide) (by decide) Example.Hops.four_ndef (by decide)
+      (by
+        intro k hk1 hk
+        have hd : dist (Example.Hops.tree4 3) [] = 3 := by decide
+        rw [hd] at hk
+        have : k = 1 ∨ k = 2 ∨ k = 3 := by omega
+        rcases this with rfl | rfl | rfl
+        · exact ⟨2, by decide, by decide, NotDupFrame.of_none (by decide)⟩
+        · exact ⟨1, by decide, by decide, NotDupFrame.of_none (by decide)⟩
+        · exact ⟨0, by decide, by decide, NotDupFrame.of_none (by decide)⟩)
+      (NotDupFrame.of_none (by decide))
+      (by
+        intro i hi
+        rcases Example.Hops.four_lt i hi with rfl | rfl | rfl | rfl <;> decide)
+      (by decide) (Or.inl (by decide)) (by decide) (by decide)
+      (by
+        intro j hj htj
+        rcases Example.Hops.four_lt j hj with rfl | rfl | rfl | rfl
+        · exact ⟨by decide, by intro g hg; cases hg⟩
+        · exact absurd htj (by decide)
+        · exact absurd htj (by decide)
+        · exact absurd htj (by decide))
+  refine ⟨s1, new, hw, hair, ?_⟩
+  rw [hlen]
+  decide
 
 end Nrf.Props.C13
